@@ -5,6 +5,8 @@ import NurbsVerif.Lemmas.RemoveInvSurf
 import NurbsVerif.Lemmas.RemoveInvVol
 import NurbsVerif.Lemmas.RemoveObjFold
 import NurbsVerif.Lemmas.InsertObjExamples
+import NurbsVerif.Lemmas.KnotRowsRemIns
+import NurbsVerif.Lemmas.KnotRowsRemOne
 
 /-!
 # C06  Removing a removable knot is exact and inverts insertion
@@ -428,5 +430,217 @@ example : removeKnot (insertKnot exSurfQ [none, some (1/4)] [0, 2] (1/10000000) 
 example : RoundOk exVolQ 2 (1/2) 1 (1/10000000) :=
   roundOk_of_sep exVolQ 2 (1/2) 1 _ exVolQ_wf.dir2 (by norm_num) (by decide +kernel) (by decide +kernel)
     (by decide +kernel) (by decide +kernel) (by decide) (by decide +kernel)
+
+/-! ## (R) The LIST-OF-ROWS branch of `helpers.knot_removal` (`is_volume`) as coded
+
+For a volume `operations.remove_knot` gathers one ROW per control-point index of the direction (a whole
+layer of the net) and calls `helpers.knot_removal` once; the helper sweeps over whole rows
+(`temp[ii][idx] = …`) and computes ONE removability flag per step from the FIRST point of the rows
+(`temp[ii-1][0]`, `temp[jj+1][0]`, `ctrlpts_new[i][0]`).  `knotRemovalRows` transcribes that branch –
+including the fact that `temp[last - first + 2] = ctrlpts_new[last + 1]` stores the list object itself,
+which the sweep of the NEXT step writes into (`RemRowsSt.al`, the sharing table) – and is run against the
+real helper by the correspondence check (`rowsrem`: removable rows, random rows, rows in which only the
+first / every iso-curve but the first is removable; `rowsvol … R`: the whole operation on volumes).
+
+`AllRemovable p U c u num s r tol2`: each of the `num` removal steps of `knotRemoval` on the curve `c`
+passes its removability test (`Rows.remFlag`, the flag `remStep` computes, in the state `Rows.remState`
+reached after the previous steps).  WHEN THE TWO MODELS AGREE: if every iso-curve of the rows is
+removable in this sense (in particular: after insertion, theorem `inserted_knots_all_removable`), the rows
+branch returns exactly the per-iso-curve results.  WHEN THEY CAN DIFFER (three refutations below, each
+replayed on the implementation by the stream `rowsrem`): the first iso-curve is removable and another is
+not (the rows branch copies the recomputed points into that iso-curve too), the first is not and another
+is (nothing is copied back, the removable iso-curve is not restored), and – with two or more removals of
+a knot that is NOT removable – the write through the shared row, which changes a control point even when
+there is a single iso-curve. -/
+
+/-- **Inserted knots pass the removability test at every step**: after `r` insertions of `ub`, every one of
+    the first `t ≤ r` removal steps of A5.8 (called as the library calls it: multiplicity `s + r`, span
+    `k + r`, the refined knot vector) computes squared distance 0 and sets its flag – any tolerance
+    `tol2 ≥ 0`. -/
+theorem inserted_knots_all_removable (p : ℕ) (Ul : List K) (P : List (List K)) (ub : K) (r t s k d : ℕ) (tol2 : K)
+    (hP : NetOk d P) (hm : Monotone (fnOf Ul)) (hlen : k + 1 < Ul.length)
+    (hk2 : ub < fnOf Ul (k + 1)) (hs : fnOf Ul (k - s) < ub)
+    (htr : t ≤ r) (hrs : r + s ≤ p) (hpk : p ≤ k) (hkP : k < P.length) (htol : 0 ≤ tol2) :
+    Rows.AllRemovable p (fnOf (knotInsertionKv Ul ub k r)) (knotInsertion p (fnOf Ul) P ub r s k) ub t (s + r) (k + r) tol2 :=
+  Rows.allRemovable_inserted p Ul P ub r t s k d tol2 hP hm hlen hk2 hs htr hrs hpk hkP htol
+
+/-- the flag of `Rows.AllRemovable` is the flag inside `remStep`: one step of the model = "if the flag is
+    set, the copy-back loop, else nothing", then the index update -/
+theorem remStep_uses_remFlag (U : ℕ → K) (u : K) (p : ℕ) (tol2 : K) (cp temp : List (List K)) (first last t : ℕ) :
+    remStep U u p tol2 (cp, temp, first, last) t =
+      (if Rows.remFlag U u p tol2 (cp, temp, first, last) t then
+          remCopy (Rows.cSweep U u p t cp temp first last).temp first t (p + 2) first last cp else cp,
+        (Rows.cSweep U u p t cp temp first last).temp, first - 1, last + 1) :=
+  Rows.remStep_pieces U u p tol2 cp temp first last t
+
+/-- **When every iso-curve is removable at every step, every iso-curve of the rows branch of A5.8 is A5.8 of
+    that iso-curve** (`s ≤ p` copies present, `num ≤ s` of them removed, the `num` steps stay inside the
+    net: `p + num ≤ r < #rows`; `m = len(rows[0]) > 0` points per row). -/
+theorem knotRemovalRows_isocurve_of_all_removable (p : ℕ) (U : ℕ → K) (R : List (List (List K))) (u : K)
+    (num s r : ℕ) (tol2 : K) (hm : 0 < (R.headD []).length) (hsp : s ≤ p) (hns : num ≤ s) (hps : p + num ≤ r)
+    (hr : r < R.length)
+    (hall : ∀ c, c < (R.headD []).length → Rows.AllRemovable p U (isoCol c R) u num s r tol2)
+    (c : ℕ) (hc : c < (R.headD []).length) :
+    isoCol c (knotRemovalRows p U R u num s r tol2) = knotRemoval p U (isoCol c R) u num s r tol2 :=
+  Rows.isoCol_knotRemovalRows p U R u num s r tol2 hm hsp hns hps hr hall c hc
+
+/-- The rows branch keeps the rows rectangular – for ANY input (removable or not). -/
+theorem knotRemovalRows_rectangular (p : ℕ) (U : ℕ → K) (R : List (List (List K))) (u : K) (num s r : ℕ) (tol2 : K)
+    (hR : Rows.RectW (R.headD []).length R) (hsp : s ≤ p) (hns : num ≤ s) (hps : p + num ≤ r) (hr : r < R.length) :
+    Rows.RectW (R.headD []).length (knotRemovalRows p U R u num s r tol2) :=
+  Rows.knotRemovalRows_rect p U R u num s r tol2 hR hsp hns hps hr
+
+/-- **`knot_removal` on a list of rows = transpose, `knotRemoval` on every iso-curve, transpose back** –
+    when all iso-curves are removable at every step. -/
+theorem knotRemovalRows_is_transposed_knotRemoval (p : ℕ) (U : ℕ → K) (R : List (List (List K))) (u : K)
+    (num s r : ℕ) (tol2 : K) (hR : Rows.RectW (R.headD []).length R) (hm : 0 < (R.headD []).length)
+    (hsp : s ≤ p) (hns : num ≤ s) (hps : p + num ≤ r) (hr : r < R.length)
+    (hall : ∀ c, c < (R.headD []).length → Rows.AllRemovable p U (isoCol c R) u num s r tol2) :
+    knotRemovalRows p U R u num s r tol2
+      = Rows.ofCols (R.length - num) (R.headD []).length (fun c => knotRemoval p U (isoCol c R) u num s r tol2) :=
+  Rows.knotRemovalRows_eq_ofCols p U R u num s r tol2 hR hm hsp hns hps hr hall
+
+/-- **Volumes: gather / ONE helper call on the rows / scatter of `operations.remove_knot` = the per-iso-curve
+    model `mapVol`**, in each direction, when every iso-curve of that direction (`isoCol c` of the gathered
+    rows) is removable at every step. -/
+theorem mapVolRows_remove_eq_mapVol (dir su sv sw p : ℕ) (U : ℕ → K) (P : List (List K)) (u : K) (num s r : ℕ) (tol2 : K)
+    (hsu : 0 < su) (hsv : 0 < sv) (hsw : 0 < sw) (hdir : dir < 3)
+    (hsp : s ≤ p) (hns : num ≤ s) (hps : p + num ≤ r) (hr : r < [su, sv, sw].getD dir 0)
+    (hall : ∀ c, c < ((volRows dir su sv sw P).headD []).length →
+      Rows.AllRemovable p U (isoCol c (volRows dir su sv sw P)) u num s r tol2) :
+    mapVolRows dir su sv sw P (fun R => knotRemovalRows p U R u num s r tol2)
+      = mapVol dir su sv sw P (fun c => knotRemoval p U c u num s r tol2) :=
+  Rows.mapVolRows_remove dir su sv sw p U P u num s r tol2 hsu hsv hsw hdir hsp hns hps hr hall
+
+/-- **One direction of `operations.remove_knot` on a volume computed through the rows (ONE flag from the
+    first iso-curve) is what the model `removeKnotDir` (a flag per iso-curve) returns, when every iso-curve
+    of that direction is removable at every step** – with the multiplicity and the span the library finds. -/
+theorem removeKnotVolRows_is_removeKnotDir (S : Shape K) (dir : ℕ) (u : K) (num : ℕ) (tol tol2 : K) (check : Bool)
+    (h3 : S.pdim = 3) (hdir : dir < 3) (hsu : 0 < S.size 0) (hsv : 0 < S.size 1) (hsw : 0 < S.size 2)
+    (hpn : S.deg dir + 1 ≤ S.size dir)
+    (hsp : findMultiplicity u (S.kv dir) tol ≤ S.deg dir)
+    (hns : check = false → num ≤ findMultiplicity u (S.kv dir) tol)
+    (hps : S.deg dir + num ≤ findSpanLinear (S.deg dir) (fnOf (S.kv dir)) (S.size dir) u)
+    (hall : ∀ c, c < ((volRows dir (S.size 0) (S.size 1) (S.size 2) S.net).headD []).length →
+      Rows.AllRemovable (S.deg dir) (fnOf (S.kv dir)) (isoCol c (volRows dir (S.size 0) (S.size 1) (S.size 2) S.net)) u num
+        (findMultiplicity u (S.kv dir) tol) (findSpanLinear (S.deg dir) (fnOf (S.kv dir)) (S.size dir) u) tol2) :
+    removeKnotVolRows S dir u num tol tol2 check = removeKnotDir S dir u num tol tol2 check :=
+  Rows.removeKnotVolRows_eq S dir u num tol tol2 check h3 hdir hsu hsv hsw hpn hsp hns hps hall
+
+/-- **Volumes, u direction, as the code computes both operations**: `r` insertions through the rows branch
+    of A5.1, then `t ≤ r` removals through the rows branch of A5.8 (one flag from the first iso-curve)
+    give exactly the net and size of `r - t` insertions. -/
+theorem volume_u_rows_insert_r_remove_t (Ul : List K) (P : List (List K)) (ub : K) (p r t s k d su sv sw : ℕ) (tol2 : K)
+    (hP : NetOk d P) (hlenP : P.length = su * sv * sw) (hsu : 0 < su) (hsv : 0 < sv) (hsw : 0 < sw)
+    (hm : Monotone (fnOf Ul)) (hlen : k + 1 < Ul.length)
+    (hk2 : ub < fnOf Ul (k + 1)) (hs : fnOf Ul (k - s) < ub)
+    (ht1 : 1 ≤ t) (htr : t ≤ r) (hrs : r + s ≤ p) (hpk : p ≤ k) (htol : 0 ≤ tol2) (hk : k < su) :
+    mapVolRows 0 (su + r) sv sw
+        (mapVolRows 0 su sv sw P (fun R => knotInsertionRows p (fnOf Ul) R ub r s k)).1
+        (fun R => knotRemovalRows p (fnOf (knotInsertionKv Ul ub k r)) R ub t (s + r) (k + r) tol2)
+      = mapVol 0 su sv sw P (fun c => knotInsertion p (fnOf Ul) c ub (r - t) s k) :=
+  Rows.volU_rows_remove_t_of_r Ul P ub p r t s k d su sv sw tol2 hP hlenP hsu hsv hsw hm hlen hk2 hs ht1 htr hrs hpk htol hk
+
+/-- **… v direction.** -/
+theorem volume_v_rows_insert_r_remove_t (Ul : List K) (P : List (List K)) (ub : K) (p r t s k d su sv sw : ℕ) (tol2 : K)
+    (hP : NetOk d P) (hlenP : P.length = su * sv * sw) (hsu : 0 < su) (hsv : 0 < sv) (hsw : 0 < sw)
+    (hm : Monotone (fnOf Ul)) (hlen : k + 1 < Ul.length)
+    (hk2 : ub < fnOf Ul (k + 1)) (hs : fnOf Ul (k - s) < ub)
+    (ht1 : 1 ≤ t) (htr : t ≤ r) (hrs : r + s ≤ p) (hpk : p ≤ k) (htol : 0 ≤ tol2) (hk : k < sv) :
+    mapVolRows 1 su (sv + r) sw
+        (mapVolRows 1 su sv sw P (fun R => knotInsertionRows p (fnOf Ul) R ub r s k)).1
+        (fun R => knotRemovalRows p (fnOf (knotInsertionKv Ul ub k r)) R ub t (s + r) (k + r) tol2)
+      = mapVol 1 su sv sw P (fun c => knotInsertion p (fnOf Ul) c ub (r - t) s k) :=
+  Rows.volV_rows_remove_t_of_r Ul P ub p r t s k d su sv sw tol2 hP hlenP hsu hsv hsw hm hlen hk2 hs ht1 htr hrs hpk htol hk
+
+/-- **… w direction** (the rows are whole u-v layers). -/
+theorem volume_w_rows_insert_r_remove_t (Ul : List K) (P : List (List K)) (ub : K) (p r t s k d su sv sw : ℕ) (tol2 : K)
+    (hP : NetOk d P) (hlenP : P.length = su * sv * sw) (hsu : 0 < su) (hsv : 0 < sv) (hsw : 0 < sw)
+    (hm : Monotone (fnOf Ul)) (hlen : k + 1 < Ul.length)
+    (hk2 : ub < fnOf Ul (k + 1)) (hs : fnOf Ul (k - s) < ub)
+    (ht1 : 1 ≤ t) (htr : t ≤ r) (hrs : r + s ≤ p) (hpk : p ≤ k) (htol : 0 ≤ tol2) (hk : k < sw) :
+    mapVolRows 2 su sv (sw + r)
+        (mapVolRows 2 su sv sw P (fun R => knotInsertionRows p (fnOf Ul) R ub r s k)).1
+        (fun R => knotRemovalRows p (fnOf (knotInsertionKv Ul ub k r)) R ub t (s + r) (k + r) tol2)
+      = mapVol 2 su sv sw P (fun c => knotInsertion p (fnOf Ul) c ub (r - t) s k) :=
+  Rows.volW_rows_remove_t_of_r Ul P ub p r t s k d su sv sw tol2 hP hlenP hsu hsv hsw hm hlen hk2 hs ht1 htr hrs hpk htol hk
+
+/-- **ONE removal (`num = 1`), any flags**: iso-curve `c` of the rows branch is A5.8 of iso-curve `c` whenever
+    the removability flag of iso-curve `c` EQUALS the flag of the first iso-curve – both set (both copy the
+    recomputed points back) or both clear (neither does; the first step writes into no shared row).  Caveats
+    1 and 2 below are the two ways the flags can be different. -/
+theorem knotRemovalRows_one_removal_isocurve_of_equal_flags (p : ℕ) (U : ℕ → K) (R : List (List (List K))) (u : K)
+    (s r : ℕ) (tol2 : K) (hm : 0 < (R.headD []).length) (hsp : s ≤ p) (hps : p + 1 ≤ r) (hs1 : 1 ≤ s)
+    (hr : r < R.length) (c : ℕ) (hc : c < (R.headD []).length)
+    (hf : Rows.remFlag U u p tol2 (Rows.remState p U (isoCol c R) u s r tol2 0) 0
+        = Rows.remFlag U u p tol2 (Rows.remState p U (isoCol 0 R) u s r tol2 0) 0) :
+    isoCol c (knotRemovalRows p U R u 1 s r tol2) = knotRemoval p U (isoCol c R) u 1 s r tol2 :=
+  Rows.isoCol_knotRemovalRows_one p U R u s r tol2 hm hsp hps hs1 hr c hc hf
+
+/-! ### where the rows branch and the per-iso-curve model differ (as coded; each replayed on the implementation) -/
+
+/-- **Caveat 1 – one flag from the first iso-curve, first removable**: quadratic, knots `0,0,0,1/2,1,1,1`;
+    iso-curve 0 (`0,1,1,0`) is the result of inserting 1/2, iso-curve 1 (`0,1,3,0`) is not removable.  The
+    rows branch copies the recomputed points into BOTH iso-curves (iso-curve 1 becomes `0,6,0`), the
+    per-iso-curve model leaves the unremovable one as it is (`0,3,0`). -/
+theorem knotRemovalRows_refutes_isocurve_when_only_first_removable :
+    isoCol 1 (knotRemovalRows 2 (fnOf ([0,0,0,1/2,1,1,1] : List ℚ))
+        [[[0],[0]], [[1],[1]], [[1],[3]], [[0],[0]]] (1/2) 1 1 3 (1/1000000)) = [[0],[6],[0]] ∧
+    knotRemoval 2 (fnOf ([0,0,0,1/2,1,1,1] : List ℚ)) [[0],[1],[3],[0]] (1/2) 1 1 3 (1/1000000) = [[0],[3],[0]] := by
+  decide +kernel
+
+/-- **Caveat 2 – first iso-curve not removable**: the same two iso-curves in the other order.  The flag of
+    the rows branch is `false`, nothing is copied back, and the removable iso-curve comes out as `0,1,0`
+    instead of the exact `0,2,0` the per-iso-curve model (and the point branch of the code) returns. -/
+theorem knotRemovalRows_refutes_isocurve_when_first_not_removable :
+    isoCol 1 (knotRemovalRows 2 (fnOf ([0,0,0,1/2,1,1,1] : List ℚ))
+        [[[0],[0]], [[1],[1]], [[3],[1]], [[0],[0]]] (1/2) 1 1 3 (1/1000000)) = [[0],[1],[0]] ∧
+    knotRemoval 2 (fnOf ([0,0,0,1/2,1,1,1] : List ℚ)) [[0],[1],[1],[0]] (1/2) 1 1 3 (1/1000000) = [[0],[2],[0]] := by
+  decide +kernel
+
+/-- **Caveat 3 – the shared row**: ONE iso-curve, quartic, the double knot 1/2 is not removable, two
+    removals.  In the second step the sweep of the rows branch writes `temp[jj][idx]` into the list object
+    that is also `ctrlpts_new[last]` (stored there by `temp[last - first + 2] = ctrlpts_new[last + 1]` one
+    step earlier); no copy-back follows (flag `false`), and the returned control point is 8 where the
+    point branch – the same data, as a curve – returns 1. -/
+theorem knotRemovalRows_refutes_point_branch_on_shared_row :
+    knotRemovalRows 4 (fnOf ([0,0,0,0,0,1/2,1/2,1,1,1,1,1] : List ℚ))
+        [[[0]], [[1]], [[3]], [[-2]], [[5]], [[1]], [[0]]] (1/2) 2 2 6 (1/1000000)
+      = [[[0]], [[1]], [[3]], [[8]], [[0]]] ∧
+    knotRemoval 4 (fnOf ([0,0,0,0,0,1/2,1/2,1,1,1,1,1] : List ℚ))
+        [[0],[1],[3],[-2],[5],[1],[0]] (1/2) 2 2 6 (1/1000000) = [[0],[1],[3],[1],[0]] := by
+  decide +kernel
+
+/-! ### non-vacuity -/
+
+/-- the hypotheses of `knotRemovalRows_isocurve_of_all_removable` on two iso-curves obtained by insertion
+    (`AllRemovable` is decidable on concrete input: here both flags are `true`) … -/
+example : Rows.AllRemovable 2 (fnOf ([0,0,0,1/2,1,1,1] : List ℚ)) [[0],[1],[1],[0]] (1/2) 1 1 3 (1/1000000) := by
+  intro t ht
+  obtain rfl : t = 0 := by omega
+  decide +kernel
+
+example : Rows.AllRemovable 2 (fnOf ([0,0,0,1/2,1,1,1] : List ℚ)) [[10],[11],[14],[16]] (1/2) 1 1 3 (1/1000000) := by
+  intro t ht
+  obtain rfl : t = 0 := by omega
+  decide +kernel
+
+/-- … and the rows branch then restores both quadratic iso-curves at once -/
+example : knotRemovalRows 2 (fnOf ([0,0,0,1/2,1,1,1] : List ℚ))
+    [[[0],[10]], [[1],[11]], [[1],[14]], [[0],[16]]] (1/2) 1 1 3 (1/1000000)
+      = [[[0],[10]], [[2],[12]], [[0],[16]]] := by decide +kernel
+
+/-- two iso-curves that are BOTH not removable have equal flags (`false`): the hypothesis of
+    `knotRemovalRows_one_removal_isocurve_of_equal_flags` with the flags clear -/
+example : Rows.remFlag (fnOf ([0,0,0,1/2,1,1,1] : List ℚ)) (1/2) 2 (1/1000000)
+      (Rows.remState 2 (fnOf ([0,0,0,1/2,1,1,1] : List ℚ)) [[0],[1],[3],[0]] (1/2) 1 3 (1/1000000) 0) 0 = false ∧
+    Rows.remFlag (fnOf ([0,0,0,1/2,1,1,1] : List ℚ)) (1/2) 2 (1/1000000)
+      (Rows.remState 2 (fnOf ([0,0,0,1/2,1,1,1] : List ℚ)) [[0],[2],[5],[0]] (1/2) 1 3 (1/1000000) 0) 0 = false := by
+  decide +kernel
+
+/-- the example volume, w direction: 1/4 in, 1/4 out, both through the rows -/
+example : ((insertKnotVolRows exVolQ 2 (1/4) 1 (1/10000000) true).bind
+    (fun T => removeKnotVolRows T 2 (1/4) 1 (1/10000000) (1/1000000) true)).map (fun T => (T.kvs, T.sizes, T.net))
+      = some (exVolQ.kvs, exVolQ.sizes, exVolQ.net) := by decide +kernel
 
 end C06
